@@ -1,14 +1,14 @@
 #!/bin/bash
-# tools/intake2.sh <Cxx> : confirm round-2 mutants A,B,C of /tmp/mut8/<Cxx>/_out as seeded/<Cxx>-d,e,f and run the matrix on them
+# tools/intake2.sh <Cxx> : confirm round-2 mutants A,B,C of /tmp/mut9/<Cxx>/_out as seeded/<Cxx>-d,e,f and run the matrix on them
 V=$(cd "$(dirname "$0")/.." && pwd); cd $V
 P=$1
 i=0
 for x in A B C; do
-  l=$(echo vwx | cut -c$((i+1)))
+  l=$(echo yzA | cut -c$((i+1)))
   i=$((i+1))
-  [ -d /tmp/mut8/$P/_out/mutant$x ] || { echo "$P-$l: no deliverable"; continue; }
-  tools/confirm_seed.sh /tmp/mut8/$P/_out/mutant$x $P-$l 2>&1 | tail -1
+  [ -d /tmp/mut9/$P/_out/mutant$x ] || { echo "$P-$l: no deliverable"; continue; }
+  tools/confirm_seed.sh /tmp/mut9/$P/_out/mutant$x $P-$l 2>&1 | tail -1
 done
 dirs=""
-for l in v w x; do [ -d seeded/$P-$l ] && dirs="$dirs seeded/$P-$l"; done
+for l in y z A; do [ -d seeded/$P-$l ] && dirs="$dirs seeded/$P-$l"; done
 [ -n "$dirs" ] && tools/matrix.sh $dirs
